@@ -13,7 +13,8 @@ A purely syntactic scan (rustparse tokens) of every function under src/compute/*
   uses               every `<e>.size()`, `.min_size()`, `.max_size()`, `.flex_basis()` accessor call and every field access
                      `self.size`, `self.min_size`, `self.max_size` (GridItem keeps raw copies) or `<e>.<field>` whose method chain
                      resolves a style length; classified by the method chain that follows:
-                       Adjusted    exactly one `.maybe_add(box_sizing_adjustment)` on the chain
+                       Adjusted    exactly one `.maybe_add(box_sizing_adjustment)` on the chain (after `.get(axis)` on the raw value:
+                                   `.maybe_add(box_sizing_adjustment.get(axis))`)
                        TestOnly    the chain ends in `.is_auto()` / `.is_some()` / `.is_none()`: only definiteness is observed
                        RawCopy     no method chain at all (the value is stored or passed on unresolved)
                        Unadjusted  resolved (`maybe_resolve`, `resolve_or_zero`, `resolve_to_option`, `into_option`) without the adjustment
@@ -143,7 +144,12 @@ def chain_after(toks, i):
 
 def classify(field, chain, where):
     names = [c[0] for c in chain]
-    adds = [c for c in chain if c[0] == 'maybe_add' and c[1] is not None and txt(c[1]) == 'box_sizing_adjustment']
+    # `.get(axis)` / `.get_abs(axis)` on the raw Size picks one component; then the adjustment must be projected the same way
+    first_add = names.index('maybe_add') if 'maybe_add' in names else len(names)
+    comp = [txt([('id', c[0]), ('op', '(')] + list(c[1]) + [('op', ')')]) for c in chain[:first_add]
+            if c[0] in ('get', 'get_abs') and c[1] is not None]
+    want = 'box_sizing_adjustment' if not comp else 'box_sizing_adjustment . ' + comp[0]
+    adds = [c for c in chain if c[0] == 'maybe_add' and c[1] is not None and txt(c[1]) == want]
     other_adds = [c for c in chain if c[0] == 'maybe_add' and c not in adds]
     if other_adds:
         raise Refuse('%s: `%s` chain adds something else than box_sizing_adjustment: %s' % (where, field, txt(other_adds[0][1] or [])))
